@@ -75,6 +75,9 @@ package evalfilter
 //@   ensures @C18 compile.rows: forall a ref :: existed(a) && a != old(arr(e.instructions)) ==> rowUnchanged(byte, a)
 //@   ensures @C18 compile.functions: e.functions == old(e.functions)
 //@   ensures @C01 compile.infix.op: err == nil && istype(node, *ast.InfixExpression) && isBinOperator(node.(*ast.InfixExpression).Operator) ==> len(e.instructions) > old(len(e.instructions)) && e.instructions[len(e.instructions) - 1] == opOf(node.(*ast.InfixExpression).Operator)
+//@   ensures @C04 @C06 compile.ident: err == nil && istype(node, *ast.Identifier) && len(e.constants) <= 65536 ==> len(e.instructions) == old(len(e.instructions)) + 3 && e.instructions[old(len(e.instructions))] == code.OpLookup
+//@             && operandAt(e, old(len(e.instructions))) < len(e.constants) && isStr(e.constants[operandAt(e, old(len(e.instructions)))]) && sval(e.constants[operandAt(e, old(len(e.instructions)))]) == node.(*ast.Identifier).Value
+//@   ensures @C18 @C08 compile.consts.mono: len(e.constants) >= old(len(e.constants)) && (forall i in 0..old(len(e.constants)) :: e.constants[i] === old(e.constants[i]))
 //@   ensures @C01 @C05 compile.prefix.op: err == nil && istype(node, *ast.PrefixExpression) ==> len(e.instructions) > old(len(e.instructions)) && e.instructions[len(e.instructions) - 1] == unOpOf(node.(*ast.PrefixExpression).Operator)
 //@   ensures @C01 @C15 compile.int.inline: err == nil && istype(node, *ast.IntegerLiteral) && 0 <= node.(*ast.IntegerLiteral).Value && node.(*ast.IntegerLiteral).Value <= 65534
 //@             ==> len(e.instructions) == old(len(e.instructions)) + 3 && e.instructions[old(len(e.instructions))] == code.OpPush && operandAt(e, old(len(e.instructions))) == node.(*ast.IntegerLiteral).Value
